@@ -86,6 +86,7 @@ func c07Context(log *[]int) *plush.Context {
 	c := c04Context()
 	c.Set("k_he", template.HTML(""))
 	c.Set("one", []int{7})
+	c.Set("two", []int{7, 8})
 	c.Set("ret", func(v interface{}) interface{} { return v })
 	c.Set("c", func(i int, v interface{}) interface{} {
 		*log = append(*log, i)
@@ -124,9 +125,9 @@ func init() {
 			return s
 		},
 		Run:  c07Run,
-		Rule: "matrix: 91 subjects (59 injected value kinds incl. nil pointer/map/slice/func and empty HTML, unknown identifier, literals, field/index/helper/user-function results) x 14 syntactic contexts (if, silent if, else-if, !, !!, && and || on either side, if(!x), if(x && 1), inside for / fn / helper block): every context must report the truth value given by the statement's table (which makes them agree with each other). chains: if + k else-if (+ else), k<=3, every assignment of condition values from {true,false,0,\"\",\"a\",nil} through a counting helper plus the bare conditions nope / !nope (unknown identifier), blocks as text or as return, at top level and inside for / fn / helper block: exactly the first truthy block (or else / nothing) is rendered and conditions 0..j are evaluated once each, none after j. Non-trivial: all cases.",
+		Rule: "matrix: 93 subjects (61 injected value kinds incl. nil pointer/map/slice/func and empty HTML, unknown identifier, literals, field/index/helper/user-function results) x 14 syntactic contexts (if, silent if, else-if, !, !!, && and || on either side, if(!x), if(x && 1), inside for / fn / helper block): every context must report the truth value given by the statement's table (which makes them agree with each other). chains: if + k else-if (+ else), k<=3, every assignment of condition values from {true,false,0,\"\",\"a\",nil} through a counting helper plus the bare conditions nope / !nope (unknown identifier), blocks as text or as return, at top level, inside for / fn / helper block and evaluated twice (loop of two iterations, function called twice): exactly the first truthy block (or else / nothing) is rendered and conditions 0..j are evaluated once each, none after j. Non-trivial: all cases.",
 		Bound: func(th bool) string {
-			return "matrix complete; chains with up to 3 else-if branches, 8 condition values, 4 placements, 2 block styles"
+			return "matrix complete; chains with up to 3 else-if branches, 8 condition values, 6 placements, 2 block styles"
 		},
 	})
 }
@@ -173,6 +174,8 @@ func c07Run(t *engine.T, shard string) {
 		{"for", `<%= for (v) in one { %>`, `<% } %>`, "", ""},
 		{"fn", `<% let g = fn() { %>`, `<% } %><%= g() %>`, "", ""},
 		{"block", `<%= blk() { %>`, `<% } %>`, "{", "}"},
+		{"for-twice", `<%= for (v) in two { %>`, `<% } %>`, "", ""},
+		{"fn-called-twice", `<% let g2 = fn() { %>`, `<% } %><%= g2() %><%= g2() %>`, "", ""},
 	}
 	for a := 0; a < total; a++ {
 		vals := make([]int, nc)
@@ -227,6 +230,12 @@ func c07Run(t *engine.T, shard string) {
 		for _, pl := range placements {
 			src := "<" + pl.pre + sb.String() + pl.post + ">"
 			expect := "<" + pl.opre + want + pl.opost + ">"
+			wantLog := wantLog
+			if pl.name == "for-twice" || pl.name == "fn-called-twice" {
+				// the same chain node is evaluated twice: both passes must behave identically
+				expect = "<" + want + want + ">"
+				wantLog = append(append([]int{}, wantLog...), wantLog...)
+			}
 			t.Case("chain "+pl.name+" "+q(src), true, func() (string, *engine.Fail) {
 				var log []int
 				out, err := Render(src, c07Context(&log))
